@@ -164,6 +164,29 @@ func runC15(sc C15Script, spelled bool, certs [2]tls.Certificate) (pts []c15Poin
 		if !f.Quiet(settleQuiet, 20*time.Second) {
 			return pts, "did not settle after " + op, ""
 		}
+		// the snapshot must be stable: a peer that keeps knocking cycles through close / redial / pending
+		stable := func() string {
+			a, b := -1, -1
+			if c := h.Hub.VerifRegistry()[p.SKI]; c != nil {
+				st, _ := c.ShipHandshakeState()
+				a = int(st)
+			}
+			if c := p.Hub.VerifRegistry()[h.SKI]; c != nil {
+				st, _ := c.ShipHandshakeState()
+				b = int(st)
+			}
+			return fmt.Sprint(a, b)
+		}
+		for tries := 0; tries < 12; tries++ {
+			s1 := stable()
+			time.Sleep(700 * time.Millisecond)
+			if s1 == stable() && f.Quiet(settleQuiet, 3*time.Second) {
+				break
+			}
+			if tries == 11 {
+				return pts, "state keeps changing after " + op, ""
+			}
+		}
 		pt.HState, pt.PState = -1, -1
 		if c := h.Hub.VerifRegistry()[p.SKI]; c != nil {
 			pt.HReg = true
@@ -283,6 +306,12 @@ func TestC15(t *testing.T) {
 		wg.Wait()
 		for i, o := range outs {
 			if o.key == "inconclusive" {
+				// once more, alone (the batch competes for the processors while it starts its hubs)
+				k, m, nt := judgeC15(scs[i])
+				o = out{k, m, nt}
+				outs[i] = o
+			}
+			if o.key == "inconclusive" {
 				st.AddInconclusive()
 				continue
 			}
@@ -290,12 +319,18 @@ func TestC15(t *testing.T) {
 			if o.key != "" {
 				// real time: re-execute to see whether it reproduces
 				rep := 0
-				for n := 0; n < 2; n++ {
+				for n := 0; n < 3; n++ {
 					if k, _, _ := judgeC15(scs[i]); k == o.key {
 						rep++
 					}
 				}
-				msg := fmt.Sprintf("%s (reproduced %d of 2 re-executions)", o.msg, rep)
+				if rep == 0 {
+					// real time: a difference that does not show again is a scheduling coincidence, no verdict
+					st.AddForeign("unreproduced:" + o.key)
+					st.Note = "unreproduced difference: " + o.msg
+					continue
+				}
+				msg := fmt.Sprintf("%s (reproduced %d of 3 re-executions)", o.msg, rep)
 				st.Fail(o.key, msg, scs[i])
 				rt.Fatalf("%s: %s", o.key, msg)
 			}
